@@ -1626,16 +1626,35 @@ class CCodeGenerator:
         field_offsets = self.context.get_field_offsets(expr.base.typ)[1]
         offset = field_offsets[expr.field]
         if expr.field.is_bitfield:
-            offset, bitshift = offset // 8, offset % 8
-            value = self.builder.emit_add(base, offset, ir.ptr)
-            bitsize = self.context.eval_expr(expr.field.bitsize)
-            signed = expr.field.typ.is_signed
-            value = BitFieldAccess(value, bitshift, bitsize, signed)
+            value = self.gen_bitfield_access(base, expr.field, offset)
         else:
             assert offset % 8 == 0
             offset //= 8
             value = self.builder.emit_add(base, offset, ir.ptr)
         return value
+
+    def gen_bitfield_access(self, base, field, bit_offset):
+        """Create the access to a bit-field of the struct at address base.
+
+        The bit-field is accessed via the smallest naturally aligned unit
+        which holds all its bits. This unit is not larger than the storage
+        unit of the declared type of the bit-field, in which the bit-field
+        lies entirely (see layout_struct), so the access stays inside the
+        struct. (An access at the byte where the bit-field starts does
+        not: with 'struct { int a : 11; int z : 21; }' z needs bytes 1..3,
+        and the 32 bits loaded from byte 1 include the byte after the
+        struct.)
+        """
+        bitsize = self.context.eval_expr(field.bitsize)
+        unit_size = self.context.alignment(field.typ) * 8
+        size = 8
+        while size < unit_size and bit_offset % size + bitsize > size:
+            size *= 2
+        byte_offset = bit_offset // size * (size // 8)
+        bitshift = bit_offset % size
+        address = self.builder.emit_add(base, byte_offset, ir.ptr)
+        signed = field.typ.is_signed
+        return BitFieldAccess(address, bitshift, bitsize, signed)
 
     def gen_array_index(self, expr: expressions.ArrayIndex):
         """Generate code for array indexing"""
